@@ -74,6 +74,7 @@ type Violation struct {
 	Unit      string   `json:"unit"`
 	CaseSeed  uint64   `json:"case_seed"`
 	Tier      string   `json:"tier"`
+	RunSeed   uint64   `json:"run_seed"` // VERIF_SEED of the run (exhaustive units derive their layouts from it)
 	History   []string `json:"history,omitempty"`
 	Stack     string   `json:"stack,omitempty"`
 }
@@ -220,7 +221,7 @@ func (c *Ctx) Fail(sig string, format string, a ...any) {
 		h = append([]string{fmt.Sprintf("… %d earlier steps omitted (re-run with replay to see all) …", len(h)-400)}, h[len(h)-400:]...)
 	}
 	c.W.res.Violations = append(c.W.res.Violations, Violation{
-		Property: c.Prop, Signature: sig, Message: msg, Unit: c.Unit, CaseSeed: c.CaseSeed, Tier: c.Tier,
+		Property: c.Prop, Signature: sig, Message: msg, Unit: c.Unit, CaseSeed: c.CaseSeed, Tier: c.Tier, RunSeed: seedFromEnv(),
 		History: append([]string(nil), h...),
 	})
 }
